@@ -387,4 +387,12 @@ theorem C07_remove_col_run (m : Mode) (t : TD α) (h : t.Inv) (i : Nat) (hi : i 
 theorem C07_ends_perm {ι : Type} (l : List ι) (w : List Bool) : ((Seq.ends l w).1 ++ (Seq.ends l w).2).Perm l :=
   dr_ends_perm w l
 
+/-- what the column drain moves out are real cells: every position the cursor still stands for holds an element of the buffer
+    (so the `Option.bind` in C07_drain_col_next never hides a missing cell) -/
+theorem C07_drain_col_cells_exist (d : DrainCol α) (k : Nat) (hwf : d.iter.WF k d.buf.length) :
+    ∀ p ∈ d.iter.abs k, ∃ x, d.buf[p]? = some x := by
+  intro p hp
+  have hlt : p < d.buf.length := rl_col_abs_lt d.iter k _ hwf p hp
+  exact ⟨d.buf[p], List.getElem?_eq_getElem hlt⟩
+
 end Toodee
